@@ -23,6 +23,13 @@ def run(tier: str, seed: int, rep: Report, model: Model) -> dict:
     where.append("ret")
     cases.append(sig_case([("x", "a b"), ("y", "b")], [(2, 3), (4,)], ret="a b", retval=(2, 3)))
     where.append("args")
+    # an un-annotated parameter that merely is CALLED cls / self, after the tensors (plain functions, static methods)
+    for nm in ("cls", "self"):
+        for shapes, wh in (([(2, 4), (4,)], "args"), ([(2, 3), (4,)], "args"), ([(2, 3), (3,)], "ret")):
+            c = sig_case([("x", "a 3"), ("y", "3")], shapes, ret="a", retval=(5,) if wh == "ret" else (2,))
+            c["params"].append({"name": nm, "hint": None, "default": {"k": "int"}})
+            cases.append(c)
+            where.append(wh)
     tries = 0
     while len(cases) < n and tries < n * 5:
         tries += 1
